@@ -431,16 +431,17 @@ PROPS = {
     },
     "C16": {
         "module": "MF.Props.C16Lexer",
-        "module_extra": ["MF.Props.C16Facts", "MF.Props.C16Expr"],
+        "module_extra": ["MF.Props.C16Facts", "MF.Props.C16Expr", "MF.Props.C16Types"],
         "theorems": ["MF.Props.C16.trivia_lemma", "MF.Props.C16.trivia_lemma_indexed", "MF.Props.C16.trivia_lemma_kinds", "MF.Props.C16.token_uses",
-                     "MF.Props.C16.respell_tokens_proj", "MF.Props.C16.respell_expr_partial"],
-        "channels": ["LEX", "TREE", "EXPR"],
+                     "MF.Props.C16.respell_tokens_proj", "MF.Props.C16.respell_expr_partial", "MF.Props.C16.same_reads", "MF.Props.C16.respell_type"],
+        "channels": ["LEX", "TREE", "EXPR", "TYPE"],
         "pred": True,
         "level": "proof",
         "trusted_base": M0_TRUST + ["specification MF/Spec/Respell.lean (what a re-spelling of a token stream is: new trivia, new case of keywords and unquoted identifiers)",
                          "translator tools/extract/parserfacts.go: every use of Token.Raw/AsString/Space/Comments in parser.go is regenerated and classified on every run (token_uses: Space and Comments are never read; Raw only in error messages, keyword tests, number/literal spellings and the '>>' split)", "no Lean model of the productions: that the tree is otherwise a function of the token kinds, AsString and Base is validated by the predicate on the real entry points"],
         "assumptions": ["lexer half proved for every input (trivia_lemma: a re-spelled input lexes to the same kinds, bases and decoded values)",
-                        "parser half proved for the expression fragment M1 (respell_expr_partial: an accepted ParseExpr input re-spelled in trivia and keyword case parses to the SAME tree; hypotheses: identifier tokens keep their bytes, no identifier reads SAFE_CAST/REPLACE_FIELDS — inherited from C07.parse_complete); the model of parseExpr..parseLit is tied to the code by the EXPR channel; every other production explored (partial)"],
+                        "parser half proved for the expression fragment M1 (respell_expr_partial: an accepted ParseExpr input re-spelled in trivia and keyword case parses to the SAME tree; hypotheses: identifier tokens keep their bytes, no identifier reads SAFE_CAST/REPLACE_FIELDS — inherited from C07.parse_complete); the model of parseExpr..parseLit is tied to the code by the EXPR channel",
+                        "parser half proved for the ParseType entry point (respell_type: an accepted type re-spelled in trivia and keyword case, identifier tokens keeping their bytes, parses to a tree equal up to position values with the same SQL() text); model tied to the code by the TYPE channel; every other production explored (partial)"],
     },
     "C18": {
         "module": "MF.Props.C18",
